@@ -37,7 +37,7 @@ def vercmp(v1: str, v2: str) -> int:
 
     def get_type(c: str) -> int:
         assert c
-        if c.isdigit():
+        if c.isdecimal():
             return digit
         elif c.isalpha():
             return alpha
@@ -119,7 +119,7 @@ def hash_key(v: str) -> tuple:
     """
 
     def get_type(c: str) -> int:
-        return 0 if c.isdigit() else 1 if c.isalpha() else 2
+        return 0 if c.isdecimal() else 1 if c.isalpha() else 2
 
     e, v = v.split(":", 1) if ":" in v else ("0", v)
     if "-" in v:
